@@ -644,7 +644,12 @@ def fidelity(rho, sigma):
     assert is_density_matrix(rho)
     assert is_density_matrix(sigma)
 
-    if is_pure(rho) or is_pure(sigma):
+    def _numerically_pure(state):
+        # the overlap shortcut is exact only for a pure state; is_pure() accepts purities within 1e-5 of 1, for which
+        # the neglected eigenvalue still changes the fidelity at the 1e-3 level
+        return np.isclose(np.real(np.trace(state @ state)), 1.0, rtol=0.0, atol=1e-12)
+
+    if _numerically_pure(rho) or _numerically_pure(sigma):
         # if either one is pure, use the simplified expression
         return np.maximum(np.minimum(np.real(np.trace(rho @ sigma)), 1.0), 0.0)
     else:
